@@ -154,3 +154,83 @@ _jobs1 = jobs
 
 def jobs():
     return _jobs1() + _es_jobs()
+
+
+def _deco_jobs():
+    O = {"impl_root": "contracts/adapters", "extra_modules": ("decorator_adapters",), "direct_calls_ok": True,
+         "ret_kinds": {"genfunc": "envgen", "func": "awaitable"}, "fault_kinds": ("raise", "cancel"),
+         "under_contract": [("contextlib", "ContextDecorator"), ("contextlib", "_AsyncGeneratorContextManager"), ("contextlib", "contextmanager")]}
+    def mk_gen(ctx, env):
+        g, f, a = env.fn("genfunc"), env.fn("func", flavour="corofn"), env.val("arg")
+        return dict(iargs=[g, f, a], rargs=[g, f, a])
+    def mk_cls(ctx, env):
+        cm, f, a = env.cm("cm", "async"), env.fn("func", flavour="corofn"), env.val("arg")
+        return dict(iargs=[cm, f, a], rargs=[cm, f, a])
+    return [
+        Job("decorator[generator manager]", ("decorator_adapters", "decorated_call_generator_manager"), ("ref_contextlib_spec", "decorated_call_generator_manager"),
+            mk_gen, kind="coro", props=("C15", "C18"), release=False, opts=O),
+        Job("decorator[class manager]", ("decorator_adapters", "decorated_call_class_manager"), ("ref_contextlib_spec", "decorated_call_class_manager"),
+            mk_cls, kind="coro", props=("C15", "C18"), release=False, opts=O),
+    ]
+
+
+_jobs2 = jobs
+
+
+def jobs():
+    return _jobs2() + _deco_jobs()
+
+
+def fingerprint(obj):
+    from pyvc.driver import Walker
+    w = Walker()
+    sh = w.visit(obj, "o", lambda x: None)
+    return (sh, tuple(s.get().sexpr() for s in w.slots))
+
+
+class DecoratorFrameProtocol:
+    """C15, non-interference: a decorated call writes no field of the shared manager / decorator object (it only
+    touches objects it allocated itself), so concurrent calls cannot interfere through the library"""
+    def available(self, H):
+        if "decorated" not in H:
+            return ["decorate"]
+        if int(H.get("calls", "0")) >= 2:
+            return []
+        return ["call"]
+
+    def perform(self, ip, H, op):
+        env = ip.env
+        if op == "decorate":
+            mgr = yield from ip.call(H["self"], [], {})          # contextmanager(genfunc)(): the shared manager
+            H["mgr"] = mgr
+            H["decorated"] = yield from ip.call(mgr, [env.fn("func", flavour="corofn")], {})
+            return None
+        H["calls"] = str(int(H.get("calls", "0")) + 1)
+        ip.frame_fp = fingerprint(H["mgr"])
+        r = yield from ip.call(H["decorated"], [env.val("arg")], {})
+        return (yield from ip.await_(r))
+
+    def expect(self, verifier, op, outcome):
+        if op != "call":
+            return []
+        H = verifier.impl_i.roots
+        same = fingerprint(H["mgr"]) == verifier.impl_i.frame_fp
+        return [("frame/shared-manager-not-written", same,
+                 "the decorated call modified the shared context-manager object (concurrent calls would interfere)")]
+
+
+def _deco_frame_jobs():
+    def mk(ctx, env):
+        g = env.fn("genfunc")
+        return dict(iargs=[g], rargs=[g])
+    return [Job("decorator-frame[generator manager]", ("contextlib", "contextmanager"), None, mk, kind="protocol", props=("C15",),
+                faults=True, closes=False, release=False,
+                opts={"protocol": DecoratorFrameProtocol(), "direct_calls_ok": True, "ret_kinds": {"genfunc": "envgen", "func": "awaitable"},
+                      "under_contract": [("contextlib", "ContextDecorator"), ("contextlib", "_AsyncGeneratorContextManager")]})]
+
+
+_jobs3 = jobs
+
+
+def jobs():
+    return _jobs3() + _deco_frame_jobs()
